@@ -693,9 +693,11 @@ class Client:
             "GETSCRIPT", [name.encode("utf-8")], withcontent=True
         )
         if code == "OK":
+            for elements in self.__response_lines:
+                if elements and elements[0][0]:
+                    content = elements[0][1]
+                    break
             lines = content.splitlines()
-            if self.__size_expr.match(lines[0]) is not None:
-                lines = lines[1:]
             return "\n".join([line.decode("utf-8") for line in lines])
         return None
 
